@@ -3,6 +3,8 @@
 import McpModel.Base.Proto
 import McpModel.EventStore.Props
 import McpModel.Conn.Props
+import McpModel.Conn.Deadlock
+import McpModel.Conn.Variant
 import McpModel.Bearer.Props
 import McpModel.KeepAlive.Props
 import McpModel.OAuth.Props
